@@ -42,7 +42,7 @@ SLOTS_THOROUGH = {
     "ptype": ["float", "int"],
     "ia": [0, 1],
     "ct": ["none", "cond", "time", "condexpr"],
-    "free": [0, 1],
+    "free": [0, 1, 2],
     "untr": [0, 1],
 }
 SLOTS_QUICK = {
@@ -53,7 +53,7 @@ SLOTS_QUICK = {
     "ptype": ["float", "int"],
     "ia": [0, 1],
     "ct": ["none", "cond", "time", "condexpr"],
-    "free": [0, 1],
+    "free": [0, 1, 2],
     "untr": [0, 1],
 }
 STATES = [[0.5, 2.0, 1.5, 0.25], [2.0, 0.5, 3.0, 1.0], [1.0, 1.0, 1.0, 1.0], [3.0, 0.25, 0.5, 2.0]]
@@ -130,7 +130,7 @@ def prepare(case):
     from mxlpy.meta import generate_model_code_jl, generate_model_code_py, generate_model_code_rs, generate_model_code_ts
 
     gens = {"py": generate_model_code_py, "ts": generate_model_code_ts, "rs": generate_model_code_rs, "jl": generate_model_code_jl}
-    free = ["k1"] if case["free"] else None
+    free = {0: None, 1: ["k1"], 2: ["kc", "k2"]}[case["free"]]  # 2: the coefficient's own parameter is an input
     out = {"ok": True, "cls": "prepared", "nontrivial": False, "symptom": None, "detail": "", "gen": {}}
     m0 = build_model(case)
     var_names = m0.get_variable_names()
@@ -139,11 +139,11 @@ def prepare(case):
     for st in STATES:
         for t in TIMES:
             y = st[: len(var_names)]
-            fv = [0.8] if free else []
+            fv = [0.8, 1.7][: len(free)] if free else []
             calls.append([t, y, fv])
             mm = build_model(case)
             if free:
-                mm.update_parameter("k1", 0.8)
+                mm.update_parameters(dict(zip(free, fv, strict=True)))
             try:
                 rhs = mm.get_right_hand_side(dict(zip(var_names, y, strict=True)), t)
                 expected.append([float(rhs[v]) for v in var_names])
@@ -323,7 +323,8 @@ def _jl(case):
 
 
 def _ia_free(case):
-    return case.get("family") != "rebind" and bool(case["ia"]) and bool(case["free"]) and not case["untr"]
+    # the assignment-defined parameter q is computed from x1 and k1; free == 1 makes k1 an input
+    return case.get("family") != "rebind" and bool(case["ia"]) and case["free"] == 1 and not case["untr"]
 
 
 PREDICATES = {
